@@ -1,17 +1,19 @@
 #!/bin/bash
 # usage: tools/try_mutant.sh <patch.diff> <property> [budget_s] [seed-id]
-# Applies a seeded change to a scratch copy of /repo's working tree (never to /repo itself), runs the property's
-# quick check against the copy (own build dir, own evidence and replay dirs), prints its verdict, removes the copy.
-# With a seed-id the verdict (exit code, violation classes, replay file) is recorded in seeded/<seed-id>/.
+# Applies a seeded change to a scratch copy of /repo's working tree (never to /repo itself) and runs the property's
+# quick check against the copy, using the COMMITTED state of /verif (git archive HEAD: edits in progress in the working
+# tree cannot disturb a queue of runs), its own build, evidence and replay directories. Prints the verdict and removes
+# the copy. With a seed-id the verdict (exit code, violation classes, replay file) is recorded in seeded/<seed-id>/.
 set -u
 PATCH=$(readlink -f "$1"); PROP=$2; BUDGET=${3:-40}; SID=${4:-}
-S=/dev/shm/mut_$$; mkdir -p $S $S/replays
+S=/dev/shm/mut_$$; mkdir -p $S $S/replays $S/verif
 rsync -a --exclude _build --exclude .git /repo/ $S/repo/
 if ! (cd $S/repo && patch -p1 --no-backup-if-mismatch < "$PATCH" > $S/patch.log 2>&1); then echo "PATCH DOES NOT APPLY"; cat $S/patch.log; rm -rf $S; exit 3; fi
+git -C /verif archive HEAD sim vcheck.py checks.py known_findings.txt | tar -x -C $S/verif
 mkdir -p $S/build
 for v in $(ls /verif/build); do cp -a /verif/build/$v $S/build/; done
-find $S/build -name '*.d' | xargs sed -i -e "s# /repo/# $S/repo/#g" -e "s#^/verif/build/#$S/build/#"
-cd /verif && VERIF_EVIDENCE_DIR=$S/evidence VERIF_REPLAY_DIR=$S/replays VERIF_REPO=$S/repo VERIF_BUILD=$S/build VERIF_BUDGET_S=$BUDGET python3 vcheck.py $PROP --tier quick > $S/out.log 2>&1
+find $S/build -name '*.d' | xargs sed -i -e "s# /repo/# $S/repo/#g" -e "s#^/verif/build/#$S/build/#" -e "s# /verif/sim/# $S/verif/sim/#g"
+cd $S/verif && VERIF_EVIDENCE_DIR=$S/evidence VERIF_REPLAY_DIR=$S/replays VERIF_REPO=$S/repo VERIF_BUILD=$S/build VERIF_BUDGET_S=$BUDGET python3 vcheck.py $PROP --tier quick > $S/out.log 2>&1
 RC=$?
 grep -v "^build ok" $S/out.log | cut -c1-400 | tail -12
 echo "exit=$RC"
